@@ -59,6 +59,8 @@ def run(ctx):
     ctx.do(rule_floats_finite)
     ctx.do(rule_constraint_presence_tests)
     ctx.do(rule_helpers_examine_every_pair)
+    from .pitfalls import rule_base64_validated_strictly
+    ctx.do(rule_base64_validated_strictly, "C02.binary-values", ("stix2.properties",))
     # timestamps are emitted with the digits their slot prescribes only if every value went through the truncation pipeline
     from . import C15
     ctx.do(C15.rule_truncate, rule_id="C02.timestamp-pipeline")
